@@ -49,6 +49,10 @@ def initState : EArgs := { n := (Array.replicate slots 0).setIfInBounds 45 5 }
 
 def body (a : EArgs) : List Fld := (List.range slots).map fun i => .num (widths.getD i 0) (a.num i)
 
+/-- `Flags as u32` for the k-th variant of `enum Flags` (fadt.rs:13-51) -/
+def flagValue (k : Nat) : Nat :=
+  if k < 22 then 1 <<< k else if k = 22 then 0 <<< 22 else if k = 23 then 1 <<< 22 else 2 <<< 22
+
 def applyOp (a : EArgs) (o : Opt) : Option EArgs :=
   let v := o.arg
   match o.name with
@@ -58,10 +62,15 @@ def applyOp (a : EArgs) (o : Opt) : Option EArgs :=
   | "fc64" => some ((a.setNum 0 0).setNum 46 (v 0))
   | "acpien" => some ((a.setNum 6 1).setNum 7 0)
   | "acpidis" => some ((a.setNum 6 0).setNum 7 1)
-  | "flag" => some (a.orNum 37 (v 0))
+  | "flag" => if v 0 < 25 then some (a.orNum 37 (flagValue (v 0))) else none
   | "gpe" => some (((((a.setNum 16 (v 0)).setNum 17 (v 1)).setNum 22 (v 2)).setNum 23 (v 3)).setNum 24 (v 4))
   | "profile" => some (a.setNum 3 (v 0))
   | "set" => if v 0 < slots ∧ v 0 ≠ 2 ∧ v 0 ≠ 36 then some (a.setNum (v 0) (v 1)) else none   -- public field write
+  | "gas" =>     -- assignment of a whole public `GAS` field: 0 = reset_reg, 1..10 = the ten at the end
+    if v 0 < 11 then
+      let base := if v 0 = 0 then 38 else 48 + 5 * (v 0 - 1)
+      some (((((a.setNum base (v 1)).setNum (base + 1) (v 2)).setNum (base + 2) (v 3)).setNum (base + 3) (v 4)).setNum (base + 4) (v 5))
+    else none
   | _ => none
 end Fadt
 
@@ -188,4 +197,17 @@ def image (s : FixedState) : Bytes :=
   | .slit => slitHead s.oem (n 0) s.hdrCks ++ s.cells.map UInt8.ofNat
 
 end FixedState
+end Acpi
+
+namespace Acpi
+
+/-- a whole builder program on a fixed table: constructor then the operations in order;
+    `none` as soon as one of them panics -/
+def runFixedFrom : FixedState → List Opt → Option FixedState
+  | s, [] => some s
+  | s, o :: os => (s.step o).bind fun s' => runFixedFrom s' os
+
+def runFixed (t : FixedT) (o : Oem) (c : EArgs) (ops : List Opt) : Option FixedState :=
+  (FixedState.new t o c).bind fun s => runFixedFrom s ops
+
 end Acpi
